@@ -118,6 +118,8 @@ Lemma hinv_frame : forall B U B' U' f m,
   nlookup f (files U') = nlookup f (files U) -> hinv B U f m -> hinv B' U' f m.
 Proof. intros B U B' U' f m H1 H2 H3 H. unfold hinv in *. rewrite H1, H2, H3. exact H. Qed.
 
+Ltac csplit := repeat match goal with |- _ /\ _ => split end.
+
 Section Sim.
   Variable frepr : fl -> str.
   Notation flush_one := (flush_one merge).
@@ -511,3 +513,522 @@ Section Sim.
           -- simpl. rewrite D3. unfold register. destruct (nmem h (reg B1)); simpl; rewrite Ed; discriminate.
         * simpl. rewrite D3. unfold register. destruct (nmem h (reg B1)); simpl; exact Ed.
   Qed.
+
+  Lemma save_sim : forall B U h f m0 m',
+    Inv B U -> nlookup h (mems B) = Some (f, m0) -> is_obj m' ->
+    Inv (save B h f m') (save U h f m') /\ nlookup h (mems (save B h f m')) = Some (f, m') /\
+    depth (save B h f m') = depth B.
+  Proof.
+    intros B U h f m0 m' [I Hd0] Hm Hobj.
+    pose proof (i_h B U I h f m0 Hm) as Hh.
+    unfold Doc.save. rewrite (i_depthU B U I).
+    destruct (depth B) as [|d] eqn:Ed.
+    - specialize (Hd0 eq_refl). split; [|split; [simpl; apply nlookup_nset_same|simpl; exact Ed]].
+      split.
+      + apply (Inv0_update B U _ _ h f m0 m' I Hm).
+        * simpl. apply (i_depthU B U I).
+        * intro x. simpl. apply (set_mem_lookup B h f m' x).
+        * intro x. simpl. apply (set_mem_lookup U h f m' x).
+        * intros f0 Hne. simpl. nsimp. auto.
+        * unfold hinv. simpl. rewrite (Hd0 f). nsimp. split; [exact Hobj|]. left. split; [reflexivity|].
+          split; [apply merge_same|exact Hobj].
+        * auto.
+        * intros e He. simpl in He. rewrite (Hd0 f) in He. discriminate.
+      + intros _ f0. simpl. apply Hd0.
+    - unfold Doc.save_buffered.
+      set (B0 := register (set_mem B h f m') h).
+      set (U' := with_files (set_mem U h f m') (nset f m' (files U))).
+      assert (Eb0 : buf B0 = buf B) by (unfold B0, register; destruct (nmem h (reg (set_mem B h f m'))); reflexivity).
+      assert (Ef0 : files B0 = files B) by (unfold B0, register; destruct (nmem h (reg (set_mem B h f m'))); reflexivity).
+      assert (Em0 : forall x, nlookup x (mems B0) = if N.eqb x h then Some (f, m') else nlookup x (mems B)).
+      { intro x. unfold B0, register. destruct (nmem h (reg (set_mem B h f m'))); apply set_mem_lookup. }
+      assert (Ed0 : depth B0 = S d) by (unfold B0, register; destruct (nmem h (reg (set_mem B h f m'))); simpl; exact Ed).
+      assert (Hr0 : In h (reg B0)) by apply in_register.
+      assert (Hrm : forall x, In x (reg B) -> In x (reg B0)) by (intros x Hx; unfold B0; apply register_mono; exact Hx).
+      rewrite Eb0, Ef0.
+      match goal with |- context [check_capacity ?s] => set (B1 := s) end.
+      assert (I1 : Inv0 B1 U').
+      { apply (Inv0_update B U _ _ h f m0 m' I Hm).
+        - simpl. apply (i_depthU B U I).
+        - intro x. unfold B1. destruct (nlookup f (buf B)); simpl; apply Em0.
+        - intro x. simpl. apply (set_mem_lookup U h f m' x).
+        - intros f0 Hne. unfold B1. destruct (nlookup f (buf B)); simpl; rewrite ?Eb0, ?Ef0; nsimp; auto.
+        - unfold hinv in *. split; [exact Hobj|].
+          destruct Hh as [Hobj0 Hh].
+          unfold B1. destruct (nlookup f (buf B)) as [e|] eqn:He; simpl; rewrite ?Eb0, ?Ef0; nsimp; simpl.
+          + destruct Hh as (_ & H0 & _). split; [reflexivity|]. split; [exact H0|]. right. reflexivity.
+          + split; [reflexivity|]. split; [|right; reflexivity].
+            destruct (nlookup f (files B)) as [v|]; [right; reflexivity|left; auto].
+        - intros x Hx. unfold B1. destruct (nlookup f (buf B)); simpl; apply Hrm; exact Hx.
+        - intros e _. unfold B1. destruct (nlookup f (buf B)); simpl; exact Hr0. }
+      destruct (check_capacity_inv B1 U' I1) as (I2 & D2 & M2 & _).
+      assert (D1 : depth B1 = S d) by (unfold B1; destruct (nlookup f (buf B)); simpl; exact Ed0).
+      split; [split; [exact I2|rewrite D2, D1; discriminate]|].
+      split; [|rewrite D2, D1; reflexivity].
+      rewrite M2. unfold B1. destruct (nlookup f (buf B)); simpl; rewrite Em0, N.eqb_refl; reflexivity.
+  Qed.
+
+  (* ---- one document operation ---- *)
+  Lemma walk_sim : forall p B U h f m pre,
+    Inv B U -> nlookup h (mems B) = Some (f, m) ->
+    let '(B', mB, eB) := walk frepr merge B h f m pre p in
+    let '(U', mU, eU) := walk frepr merge U h f m pre p in
+    mB = mU /\ eB = eU /\ Inv B' U' /\ nlookup h (mems B') = Some (f, mB) /\ depth B' = depth B /\ is_obj mB.
+  Proof.
+    induction p as [|e p IH]; intros B U h f m pre I Hm; simpl.
+    - csplit; auto. destruct I as [I _]. destruct (i_h B U I h f m Hm) as [Ho _]. exact Ho.
+    - pose proof (load_sim B U h f m I Hm) as Hl.
+      destruct (load B h f m) as [B1 m1]. destruct (load U h f m) as [U1 m1'].
+      destruct Hl as (-> & I1 & Hm1 & D1 & Ho1).
+      destruct (get_at (pre ++ [e]) m1').
+      + specialize (IH B1 U1 h f m1' (pre ++ [e]) I1 Hm1).
+        destruct (walk frepr merge B1 h f m1' (pre ++ [e]) p) as [[B2 m2] e2].
+        destruct (walk frepr merge U1 h f m1' (pre ++ [e]) p) as [[U2 m2'] e2'].
+        destruct IH as (A & B0 & C & D & E & F). csplit; auto. congruence.
+      + csplit; auto.
+  Qed.
+
+  Lemma apply_obj : forall o t t' r, is_obj t -> sync_apply merge o t = Ok (t', r) -> is_obj t'.
+  Proof.
+    intros o t t' r [d ->] H. unfold sync_apply, apply_with in H.
+    destruct o; try discriminate; try (inversion H; subst; eexists; reflexivity).
+    - destruct (amem k d); inversion H; eexists; reflexivity.
+    - inversion H; subst. apply merge_obj_obj; eexists; reflexivity.
+    - destruct (alookup k d); inversion H; subst; eexists; reflexivity.
+    - destruct (alookup k d); inversion H; subst; eexists; reflexivity.
+    - inversion H; subst. apply merge_obj_obj; eexists; reflexivity.
+  Qed.
+
+  Lemma set_at_obj : forall p nv m, is_obj m -> (p = [] -> is_obj nv) -> is_obj (set_at p nv m).
+  Proof.
+    intros p nv m [d ->] H. destruct p as [|[k|i] p]; simpl; [apply H; reflexivity| |eexists; reflexivity].
+    destruct (alookup k d); eexists; reflexivity.
+  Qed.
+
+  Lemma cop_sim : forall B U h p o,
+    Inv B U ->
+    let '(B', rB) := cop B h p o in
+    let '(U', rU) := cop U h p o in
+    rB = rU /\ Inv B' U' /\ depth B' = depth B.
+  Proof.
+    intros B U h p o I. unfold Doc.cop.
+    assert (Em : nlookup h (mems B) = nlookup h (mems U)) by (destruct I as [I _]; apply (i_mems B U I)).
+    rewrite <- Em. destruct (nlookup h (mems B)) as [[f m0]|] eqn:Hm; [|auto].
+    pose proof (walk_sim p B U h f m0 [] I Hm) as Hw.
+    destruct (walk frepr merge B h f m0 [] p) as [[B0 mB] eB].
+    destruct (walk frepr merge U h f m0 [] p) as [[U0 mU] eU].
+    destruct Hw as (-> & -> & I0 & Hm0 & D0 & Ho0).
+    destruct eU as [e|]; [auto|].
+    assert (Hl : let '(B1, m1) := (if op_loads o then load B0 h f mU else (B0, mU)) in
+                 let '(U1, m1') := (if op_loads o then load U0 h f mU else (U0, mU)) in
+                 m1 = m1' /\ Inv B1 U1 /\ nlookup h (mems B1) = Some (f, m1) /\ depth B1 = depth B /\ is_obj m1).
+    { destruct (op_loads o).
+      - pose proof (load_sim B0 U0 h f mU I0 Hm0) as Hl.
+        destruct (load B0 h f mU) as [B1 m1]. destruct (load U0 h f mU) as [U1 m1'].
+        destruct Hl as (A & B2 & C & D & E). csplit; auto. congruence.
+      - csplit; auto. }
+    destruct (if op_loads o then load B0 h f mU else (B0, mU)) as [B1 m1].
+    destruct (if op_loads o then load U0 h f mU else (U0, mU)) as [U1 m1'].
+    destruct Hl as (<- & I1 & Hm1 & D1 & Ho1).
+    destruct (get_at p m1) as [t|e] eqn:Eg; [|auto].
+    destruct (is_read o); [auto|].
+    destruct (sync_apply merge o t) as [[t' r]|e] eqn:Ea.
+    - assert (Hobj' : is_obj (set_at p t' m1)).
+      { apply set_at_obj; [exact Ho1|]. intros ->. simpl in Eg. inversion Eg; subst t.
+        eapply apply_obj; eauto. }
+      destruct (save_sim B1 U1 h f m1 _ I1 Hm1 Hobj') as (I2 & _ & D2).
+      split; [reflexivity|]. split; [exact I2|congruence].
+    - destruct o; try (split; [reflexivity|split; [exact I1|exact D1]]);
+        (destruct (save_sim B1 U1 h f m1 m1 I1 Hm1 Ho1) as (I2 & _ & D2);
+         split; [reflexivity|]; split; [exact I2|congruence]).
+  Qed.
+
+  (* ---- one program item ---- *)
+  Definition is_new (it : citem) : bool := match it with CNew _ _ => true | _ => false end.
+
+  Lemma cstep_sim : forall B U it,
+    Inv B U -> is_new it = false ->
+    let '(B', rB) := cstep B it in
+    if unbuffered_item it
+    then let '(U', rU) := cstep U it in rB = rU /\ Inv B' U'
+    else Inv B' U.
+  Proof.
+    intros B U it I Hn. destruct it as [h f|h p o|c| |c]; simpl in *; try discriminate.
+    - pose proof (cop_sim B U h p o I) as H.
+      destruct (cop B h p o) as [B' rB]. destruct (cop U h p o) as [U' rU]. tauto.
+    - (* enter *)
+      destruct I as [I Hd0]. destruct c as [n|]; simpl.
+      + destruct (set_capacity_inv (with_caps (with_depth B (S (depth B))) (Some (cap B) :: caps B)) U n
+                    (with_caps_inv _ U _ (with_depth_inv B U _ I))) as (I' & D' & _).
+        split; [exact I'|]. rewrite D'. simpl. discriminate.
+      + split; [apply with_caps_inv, with_depth_inv; exact I|]. simpl. discriminate.
+    - (* exit *)
+      destruct I as [I Hd0]. destruct (depth B) as [|d] eqn:Ed; simpl; [split; [exact I|rewrite Ed; exact Hd0]|].
+      set (B1 := with_depth B d).
+      assert (I1 : Inv0 B1 U) by (apply with_depth_inv; exact I).
+      set (B2 := match d with O => flush_all B1 | S _ => B1 end).
+      assert (I2 : Inv0 B2 U /\ depth B2 = d /\ (d = 0%nat -> forall f, nlookup f (buf B2) = None)).
+      { unfold B2. destruct d.
+        - destruct (flush_all_inv B1 U I1) as [I2 Hn2]. split; [exact I2|]. split; [rewrite flush_all_depth; reflexivity|auto].
+        - split; [exact I1|]. split; [reflexivity|discriminate]. }
+      destruct I2 as (I2 & D2 & N2).
+      destruct (caps B2) as [|[c|] r] eqn:Ec.
+      + split; [exact I2|]. rewrite D2. exact N2.
+      + destruct (set_capacity_inv (with_caps B2 r) U c (with_caps_inv B2 U r I2)) as (I3 & D3 & N3).
+        split; [exact I3|]. rewrite D3. simpl. rewrite D2. intro E. apply N3. simpl. apply N2. exact E.
+      + split; [apply with_caps_inv; exact I2|]. simpl. rewrite D2. exact N2.
+    - (* set_buffer_capacity *)
+      destruct I as [I Hd0]. destruct (set_capacity_inv B U c I) as (I' & D' & N').
+      split; [exact I'|]. rewrite D'. intro E. apply N'. apply Hd0. exact E.
+  Qed.
+
+  Fixpoint keep (prog : list citem) (rets : list (result json)) : list (result json) :=
+    match prog, rets with
+    | it :: p, r :: rs => if unbuffered_item it then r :: keep p rs else keep p rs
+    | _, _ => []
+    end.
+
+  Lemma crun_sim : forall prog B U,
+    Inv B U -> forallb (fun it => negb (is_new it)) prog = true ->
+    let '(B', rb) := crun B prog in
+    let '(U', ru) := crun U (strip prog) in
+    keep prog rb = ru /\ Inv B' U'.
+  Proof.
+    induction prog as [|it prog IH]; intros B U I Hn; simpl.
+    - auto.
+    - simpl in Hn. apply andb_true_iff in Hn. destruct Hn as [Hn1 Hn2]. apply negb_true_iff in Hn1.
+      pose proof (cstep_sim B U it I Hn1) as Hs.
+      destruct (cstep B it) as [B1 r1].
+      destruct (unbuffered_item it) eqn:Eu; simpl.
+      + destruct (cstep U it) as [U1 r1']. destruct Hs as [-> I1].
+        specialize (IH B1 U1 I1 Hn2).
+        destruct (crun B1 prog) as [B2 rs]. destruct (crun U1 (strip prog)) as [U2 rs'].
+        destruct IH as [<- I2]. auto.
+      + specialize (IH B1 U Hs Hn2).
+        destruct (crun B1 prog) as [B2 rs]. destruct (crun U (strip prog)) as [U2 rs']. exact IH.
+  Qed.
+
+  (* ---- initial states ---- *)
+  Definition good_init (st : cstate) : Prop :=
+    depth st = 0%nat /\ buf st = [] /\
+    (forall h h' f m m', nlookup h (mems st) = Some (f, m) -> nlookup h' (mems st) = Some (f, m') -> h = h') /\
+    (forall h f m, nlookup h (mems st) = Some (f, m) -> is_obj m /\ insync m (nlookup f (files st))).
+
+  Lemma good_init_inv : forall st, good_init st -> Inv st st.
+  Proof.
+    intros st (Hd & Hb & Hi & Hs). split; [|intros _ f; rewrite Hb; reflexivity].
+    constructor; auto.
+    - intros h f m Hm. destruct (Hs h f m Hm) as [Ho Hy]. unfold hinv. rewrite Hb. simpl. split; [exact Ho|left; auto].
+    - intros f e H. rewrite Hb in H. discriminate.
+  Qed.
+
+  Theorem buffer_transparent_single : forall prog st0,
+    good_init st0 -> forallb (fun it => negb (is_new it)) prog = true ->
+    let '(B, rb) := crun st0 prog in
+    let '(U, ru) := crun st0 (strip prog) in
+    keep prog rb = ru /\
+    (forall h, nlookup h (mems B) = nlookup h (mems U)) /\
+    (depth B = 0%nat ->
+       (forall h f m, nlookup h (mems B) = Some (f, m) -> fcontent B f = fcontent U f) /\
+       (forall f, (forall h m, nlookup h (mems B) <> Some (f, m)) -> nlookup f (files B) = nlookup f (files U))).
+  Proof.
+    intros prog st0 Hg Hn.
+    pose proof (crun_sim prog st0 st0 (good_init_inv st0 Hg) Hn) as H.
+    destruct (crun st0 prog) as [B rb]. destruct (crun st0 (strip prog)) as [U ru].
+    destruct H as [Hk [I Hd0]]. split; [exact Hk|]. split; [apply (i_mems B U I)|].
+    intro Hd. specialize (Hd0 Hd). split.
+    - intros h f m Hm. destruct (i_h B U I h f m Hm) as [Ho Hh]. rewrite (Hd0 f) in Hh.
+      unfold fcontent. destruct Hh as [[Hf _]|(Hfb & Hfu & He)].
+      + rewrite Hf. reflexivity.
+      + rewrite Hfb, Hfu. symmetry. exact He.
+    - apply (i_free B U I).
+  Qed.
+End Sim.
+
+(* ================= refutations (witnesses; replayed on the implementation by harness/c05.py GOLDEN) ================= *)
+Local Open Scope N_scope.
+Definition fr0 : fl -> str := fun _ => [48].
+Definition kx : str := [120].
+Definition kc : str := [99].
+Definition core0 := init_core 33554432.
+
+(* two collections on one file inside one block: the write of collection 1 is dropped on exit *)
+Definition prog_lost : list citem :=
+  [CNew 1 1; CNew 2 1; CEnter None; COp 1 [] OGet; COp 2 [] OGet; COp 1 [] (OSet kx (JInt 1)); CExit].
+
+Lemma buffer_transparent_refuted_w :
+  let B := fst (crun fr0 merge core0 prog_lost) in
+  let U := fst (crun fr0 merge core0 (strip prog_lost)) in
+  depth B = 0%nat /\ fcontent B 1 = JObj [] /\ fcontent U 1 = JObj [(kx, JInt 1)].
+Proof. vm_compute. repeat split. Qed.
+
+(* ... and with a small capacity the writing collection does not even read its own write back *)
+Definition prog_own : list citem :=
+  [CNew 1 1; CNew 2 1; COp 1 [] OClear; CEnter (Some 3); COp 1 [] OGet; COp 2 [] OGet;
+   COp 1 [] (OSet kx (JInt 1)); COp 1 [] OGet].
+
+Lemma read_own_writes_refuted_w :
+  nth 6 (snd (crun fr0 merge core0 prog_own)) (Err EOther) = Ok JNull /\
+  nth 7 (snd (crun fr0 merge core0 prog_own)) (Err EOther) = Ok (JObj []).
+Proof. vm_compute. split; reflexivity. Qed.
+
+(* update() cannot replace a nested dict by None: not even Python-equal to the plain dict *)
+Definition prog_none : list citem :=
+  [CNew 1 1; COp 1 [] (OSet kc (JObj [(kx, JInt 1)])); COp 1 [] (OUpdate [(kc, JNull)]); COp 1 [] OGet].
+Definition plain_none : json :=
+  fst (plain_step [] (OUpdate [(kc, JNull)]) (fst (plain_step [] (OSet kc (JObj [(kx, JInt 1)])) (JObj [])))).
+
+Lemma doc_faithful_refuted_w :
+  exists v, nth 3 (snd (crun fr0 merge core0 prog_none)) (Err EOther) = Ok v /\
+            fcontent (fst (crun fr0 merge core0 prog_none)) 1 = v /\
+            plain_none = JObj [(kc, JNull)] /\ py_eq v plain_none = false.
+Proof. eexists. vm_compute. repeat split. Qed.
+
+(* update() keeps an existing value that compares == : the stored type differs from the plain dict's *)
+Definition prog_typed : list citem :=
+  [CNew 1 1; COp 1 [] (OSet kx (JInt 1)); COp 1 [] (OUpdate [(kx, JBool true)]); COp 1 [] OGet].
+
+Lemma doc_faithful_typed_refuted_w :
+  nth 3 (snd (crun fr0 merge core0 prog_typed)) (Err EOther) = Ok (JObj [(kx, JInt 1)]) /\
+  fst (plain_step [] (OUpdate [(kx, JBool true)]) (JObj [(kx, JInt 1)])) = JObj [(kx, JBool true)] /\
+  py_eq (JObj [(kx, JInt 1)]) (JObj [(kx, JBool true)]) = true.
+Proof. vm_compute. repeat split. Qed.
+
+(* ================= the signac part: the document handle follows the job ================= *)
+Lemma nmem_add_dir : forall ds f, f <> 0 -> nmem f (add_dir ds f) = true.
+Proof.
+  intros ds f H0. unfold add_dir. assert (E0 : N.eqb f 0 = false) by (apply N.eqb_neq; exact H0). rewrite E0. simpl.
+  destruct (nmem f ds) eqn:E; [exact E|]. unfold nmem. rewrite existsb_app. simpl. rewrite N.eqb_refl. apply orb_true_r.
+Qed.
+
+Section Follow.
+  Variable frepr : fl -> str.
+  Notation jstep := (jstep frepr merge).
+
+  (* after a successful re-key the next document access of that Job object goes through a NEW collection
+     bound to the file of the NEW id, in a directory that exists *)
+  Lemma follow_rekey : forall js j f f' d,
+    nlookup j (jobs js) = Some (f, d) -> f <> f' -> nmem f (dirs js) = true -> nmem f' (dirs js) = false -> f' <> 0 ->
+    let js1 := fst (jstep js (JRekey j f')) in
+    snd (jstep js (JRekey j f')) = Ok JNull /\
+    nlookup j (jobs js1) = Some (f', None) /\
+    nlookup f' (files (core js1)) = nlookup f (files (core js)) /\
+    nlookup f (files (core js1)) = None /\
+    exists js2 h, resolve_doc frepr merge js1 j = Some (js2, h) /\
+                  nlookup h (mems (core js2)) = Some (f', empty_obj) /\ nmem f' (dirs js2) = true.
+  Proof.
+    intros js j f f' d Hj Hne Hd Hd' H0. cbv zeta. unfold Doc.jstep. rewrite Hj.
+    assert (E : N.eqb f f' = false) by (apply N.eqb_neq; exact Hne). rewrite E, Hd, Hd'. simpl.
+    split; [reflexivity|]. split; [apply nlookup_nset_same|].
+    split.
+    { destruct (nlookup f (files (core js))) as [v|] eqn:Ev; simpl.
+      - apply nlookup_nset_same.
+      - apply nlookup_nremove_same. }
+    split.
+    { destruct (nlookup f (files (core js))) as [v|] eqn:Ev; simpl.
+      - rewrite nlookup_nset_other by auto. apply nlookup_nremove_same.
+      - rewrite nlookup_nremove_other by auto. apply nlookup_nremove_same. }
+    unfold resolve_doc. simpl. rewrite nlookup_nset_same. eexists. eexists. split; [reflexivity|]. simpl.
+    split; [apply nlookup_nset_same|].
+    apply nmem_add_dir. exact H0.
+  Qed.
+
+  (* after remove() the next document access re-creates the job and starts from an empty document *)
+  Lemma follow_remove : forall js j f d,
+    nlookup j (jobs js) = Some (f, d) -> nmem f (dirs js) = true ->
+    let js1 := fst (jstep js (JRemove j)) in
+    nlookup j (jobs js1) = Some (f, None) /\ nlookup f (files (core js1)) = None /\ nmem f (dirs js1) = false /\
+    exists js2 h, resolve_doc frepr merge js1 j = Some (js2, h) /\
+                  nlookup h (mems (core js2)) = Some (f, empty_obj) /\ h = nexth js.
+  Proof.
+    intros js j f d Hj Hd. cbv zeta. unfold Doc.jstep. rewrite Hj, Hd. simpl.
+    split; [apply nlookup_nset_same|]. split; [apply nlookup_nremove_same|].
+    split.
+    { unfold del_dir, nmem. apply not_true_is_false. intro H. apply existsb_exists in H.
+      destruct H as (x & Hx & Ex). apply filter_In in Hx. destruct Hx as [_ Hx]. apply N.eqb_eq in Ex. subst x.
+      rewrite N.eqb_refl in Hx. discriminate. }
+    unfold resolve_doc. simpl. rewrite nlookup_nset_same. eexists. eexists. split; [reflexivity|]. simpl.
+    split; [apply nlookup_nset_same|reflexivity].
+  Qed.
+
+  (* every document operation of a Job object goes to the file of the id the object currently has *)
+  Lemma follow_op : forall js j f p o,
+    nlookup j (jobs js) = Some (f, None) ->
+    exists js1 h, resolve_doc frepr merge js j = Some (js1, h) /\ nlookup h (mems (core js1)) = Some (f, empty_obj) /\
+                  jstep js (JOp j p o) = (with_core js1 (fst (cstep frepr merge (core js1) (COp h p o))),
+                                          snd (cstep frepr merge (core js1) (COp h p o))).
+  Proof.
+    intros js j f p o Hj. unfold Doc.jstep, resolve_doc. rewrite Hj. eexists. eexists. split; [reflexivity|].
+    split; [simpl; apply nlookup_nset_same|].
+    match goal with |- (let '(c, r) := ?x in _) = _ => destruct x as [c r] end. reflexivity.
+  Qed.
+End Follow.
+
+(* ================= licence for the correspondence ================= *)
+Definition res_exact (a b : result json) : bool :=
+  match a, b with
+  | Ok x, Ok y => json_eqb x y
+  | Err e, Err e' => exn_eqb e e'
+  | _, _ => false
+  end.
+Definition files_exact (a b : list (N * json)) : bool :=
+  list_eqb (fun x y => N.eqb (fst x) (fst y) && json_eqb (snd x) (snd y)) a b.
+Definition obs_exact (a b : obs5) : bool :=
+  res_exact (o_ret a) (o_ret b) && files_exact (o_files a) (o_files b) && list_eqb N.eqb (o_dirs a) (o_dirs b)
+  && Bool.eqb (o_buffered a) (o_buffered b) && N.eqb (o_stray a) (o_stray b).
+Definition agree_exact (c : case_C05) : bool := all2 obs_exact (run_C05 c) (c5_obs c).
+
+Definition with_model_obs (c : case_C05) : case_C05 :=
+  {| c5_ftab := c5_ftab c; c5_cap0 := c5_cap0 c; c5_prog := c5_prog c; c5_obs := run_C05 c |}.
+
+Lemma res_exact_eq : forall a b, res_exact a b = true -> a = b.
+Proof.
+  intros [x|e] [y|e']; simpl; intro H; try discriminate.
+  - f_equal. apply json_eqb_eq. exact H.
+  - f_equal. apply exn_eqb_eq. exact H.
+Qed.
+
+Lemma obs_exact_eq : forall a b, obs_exact a b = true -> a = b.
+Proof.
+  intros [r1 f1 d1 b1 s1] [r2 f2 d2 b2 s2] H. unfold obs_exact in H. simpl in H.
+  repeat (apply andb_true_iff in H; destruct H as [H ?]).
+  apply res_exact_eq in H. apply N.eqb_eq in H0. apply Bool.eqb_prop in H1.
+  apply (list_eqb_eq N N.eqb N.eqb_eq) in H2.
+  assert (f1 = f2).
+  { apply (list_eqb_eq _ (fun x y => N.eqb (fst x) (fst y) && json_eqb (snd x) (snd y))); [|exact H3].
+    intros [k v] [k' v']. simpl. rewrite andb_true_iff, N.eqb_eq, json_eqb_eq. split; [intros [-> ->]; reflexivity|intro E; inversion E; auto]. }
+  subst. reflexivity.
+Qed.
+
+Lemma all2_exact_eq : forall a b, all2 obs_exact a b = true -> a = b.
+Proof.
+  induction a as [|x a IH]; destruct b as [|y b]; simpl; intro H; try discriminate; [reflexivity|].
+  apply andb_true_iff in H. destruct H as [H1 H2]. f_equal; [apply obs_exact_eq; exact H1|apply IH; exact H2].
+Qed.
+
+(* when the implementation's observations ARE the model's, the oracle's verdict on the implementation is its
+   verdict on the model run *)
+Theorem model_holds_C05 : forall c,
+  agree_exact c = true -> holds_C05 c = holds_C05 (with_model_obs c) /\ mismatch_C05 c = mismatch_C05 (with_model_obs c).
+Proof.
+  intros c H. unfold agree_exact in H. apply all2_exact_eq in H.
+  unfold holds_C05, mismatch_C05, with_model_obs, run_C05 in *. simpl. rewrite <- H. split; reflexivity.
+Qed.
+
+(* ================= unbuffered, one up-to-date collection per file: the document is the pure function ============ *)
+Lemma get_at_app : forall a b d,
+  get_at (a ++ b) d = match get_at a d with Ok v => get_at b v | Err e => Err e end.
+Proof.
+  induction a as [|e a IH]; intros b d; simpl; [reflexivity|].
+  destruct e as [k|i]; destruct d; try reflexivity.
+  - destruct (alookup k kvs); [apply IH|reflexivity].
+  - destruct (nth_error l (N.to_nat i)); [apply IH|reflexivity].
+Qed.
+
+Section Unbuf.
+  Variable frepr : fl -> str.
+  Notation load := (load frepr merge).
+  Notation save := (save frepr merge).
+  Notation cop := (cop frepr merge).
+
+  (* outside blocks, collection h holds exactly what its file holds (an absent file = the empty document) *)
+  Definition uptodate (st : cstate) (h f : N) (d : json) : Prop :=
+    depth st = 0%nat /\ nlookup h (mems st) = Some (f, d) /\ fcontent st f = d.
+
+  (* st' differs from st at most in the memory of h *)
+  Definition same_but_mem (st st' : cstate) (h : N) : Prop :=
+    files st' = files st /\ depth st' = depth st /\ forall x, x <> h -> nlookup x (mems st') = nlookup x (mems st).
+
+  Lemma uload : forall st h f d, uptodate st h f d ->
+    load st h f d = (set_mem st h f d, d).
+  Proof.
+    intros st h f d (Hd & Hm & Hf). unfold Doc.load. rewrite Hd. unfold fcontent in Hf.
+    destruct (nlookup f (files st)) as [v|]; simpl; [subst v; rewrite merge_same|]; reflexivity.
+  Qed.
+
+  Lemma uptodate_set_mem : forall st h f d, uptodate st h f d ->
+    uptodate (set_mem st h f d) h f d /\ same_but_mem st (set_mem st h f d) h.
+  Proof.
+    intros st h f d (Hd & Hm & Hf). split.
+    - split; [exact Hd|]. split; [simpl; apply nlookup_nset_same|exact Hf].
+    - split; [reflexivity|]. split; [reflexivity|]. intros x Hx. simpl. apply nlookup_nset_other. auto.
+  Qed.
+
+  Lemma same_but_mem_trans : forall a b c h, same_but_mem a b h -> same_but_mem b c h -> same_but_mem a c h.
+  Proof.
+    intros a b c h (F1 & D1 & M1) (F2 & D2 & M2). split; [congruence|]. split; [congruence|].
+    intros x Hx. rewrite M2, M1; auto.
+  Qed.
+
+  Lemma uwalk : forall p st h f d pre v0,
+    uptodate st h f d -> get_at pre d = Ok v0 ->
+    let '(st', m', e) := walk frepr merge st h f d pre p in
+    m' = d /\ uptodate st' h f d /\ same_but_mem st st' h /\
+    e = match get_at (pre ++ p) d with Ok _ => None | Err x => Some x end.
+  Proof.
+    induction p as [|el p IH]; intros st h f d pre v0 Hu Hp; simpl.
+    - rewrite app_nil_r, Hp. split; [reflexivity|]. split; [exact Hu|]. split; [|reflexivity].
+      split; [reflexivity|]. split; [reflexivity|]. auto.
+    - rewrite (uload st h f d Hu). destruct (uptodate_set_mem st h f d Hu) as [Hu1 Hs1].
+      replace (pre ++ el :: p) with ((pre ++ [el]) ++ p) by (rewrite <- app_assoc; reflexivity).
+      destruct (get_at (pre ++ [el]) d) as [v1|x] eqn:Eg.
+      + specialize (IH (set_mem st h f d) h f d (pre ++ [el]) v1 Hu1 Eg).
+        destruct (walk frepr merge (set_mem st h f d) h f d (pre ++ [el]) p) as [[st' m'] e].
+        destruct IH as (A & B & C & D). split; [exact A|]. split; [exact B|]. split; [|exact D].
+        eapply same_but_mem_trans; eauto.
+      + rewrite get_at_app, Eg. split; [reflexivity|]. split; [exact Hu1|]. split; [exact Hs1|reflexivity].
+  Qed.
+
+  Lemma usave : forall st h f d d', uptodate st h f d ->
+    uptodate (save st h f d') h f d' /\
+    (forall f0, f0 <> f -> nlookup f0 (files (save st h f d')) = nlookup f0 (files st)) /\
+    (forall x, x <> h -> nlookup x (mems (save st h f d')) = nlookup x (mems st)).
+  Proof.
+    intros st h f d d' (Hd & Hm & Hf). unfold Doc.save. rewrite Hd. simpl. split; [|split].
+    - split; [exact Hd|]. split; [simpl; apply nlookup_nset_same|]. unfold fcontent. simpl. rewrite nlookup_nset_same. reflexivity.
+    - intros f0 Hne. apply nlookup_nset_other. auto.
+    - intros x Hx. apply nlookup_nset_other. auto.
+  Qed.
+
+  Theorem ucop_spec : forall st h f d p o,
+    uptodate st h f d ->
+    let '(st', r) := cop st h p o in
+    let '(d', r') := doc_apply merge p o d in
+    r = r' /\ uptodate st' h f (if is_read o then d else d') /\
+    (forall f0, f0 <> f -> nlookup f0 (files st') = nlookup f0 (files st)) /\
+    (forall x, x <> h -> nlookup x (mems st') = nlookup x (mems st)).
+  Proof.
+    intros st h f d p o Hu. unfold Doc.cop. destruct Hu as (Hd & Hm & Hf). rewrite Hm.
+    assert (Hu : uptodate st h f d) by (split; [exact Hd|split; [exact Hm|exact Hf]]).
+    pose proof (uwalk p st h f d [] d Hu eq_refl) as Hw. simpl app in Hw.
+    destruct (walk frepr merge st h f d [] p) as [[st0 m0] e0].
+    destruct Hw as (-> & Hu0 & (F0 & D0 & M0) & ->).
+    unfold doc_apply.
+    destruct (get_at p d) as [t|x] eqn:Eg.
+    2:{ split; [reflexivity|]. split; [destruct (is_read o); exact Hu0|]. split; [intros; rewrite F0; reflexivity|exact M0]. }
+    assert (Hl : exists st1, (if op_loads o then load st0 h f d else (st0, d)) = (st1, d) /\ uptodate st1 h f d /\
+                  files st1 = files st /\ (forall x, x <> h -> nlookup x (mems st1) = nlookup x (mems st))).
+    { destruct (op_loads o).
+      - rewrite (uload st0 h f d Hu0). destruct (uptodate_set_mem st0 h f d Hu0) as [Hu1 (F1 & _ & M1)].
+        eexists. split; [reflexivity|]. split; [exact Hu1|]. split; [congruence|]. intros x Hx. rewrite M1, M0; auto.
+      - exists st0. auto. }
+    destruct Hl as (st1 & -> & Hu1 & F1 & M1). rewrite Eg.
+    destruct (is_read o) eqn:Er.
+    - destruct o; try discriminate. simpl. split; [reflexivity|]. split; [exact Hu1|]. split; [intros; rewrite F1; reflexivity|exact M1].
+    - unfold sync_apply. destruct (apply_with merge o t) as [[t' r]|x] eqn:Ea.
+      + destruct (usave st1 h f d (set_at p t' d) Hu1) as (A & B & C).
+        split; [reflexivity|]. split; [exact A|]. split; [intros f0 H0; rewrite B, F1; auto|intros x Hx; rewrite C, M1; auto].
+      + destruct (usave st1 h f d d Hu1) as (A & B & C).
+        destruct o; try (split; [reflexivity|]; split; [exact Hu1|]; split; [intros; rewrite F1; reflexivity|exact M1]);
+          (split; [reflexivity|]; split; [exact A|]; split; [intros f0 H0; rewrite B, F1; auto|intros x0 Hx; rewrite C, M1; auto]).
+  Qed.
+
+  (* operations other than update()/reset() are exactly the plain dict/list operations *)
+  Definition merge_free (o : dop) : bool := match o with OUpdate _ | OReset _ => false | _ => true end.
+  Lemma doc_apply_plain : forall p o d, merge_free o = true -> doc_apply merge p o d = plain_step p o d.
+  Proof.
+    intros p o d H. unfold plain_step, doc_apply. destruct (get_at p d) as [t|]; [|reflexivity].
+    assert (E : apply_with merge o t = apply_with (fun _ new => new) o t) by (destruct o; try discriminate; reflexivity).
+    rewrite E. reflexivity.
+  Qed.
+End Unbuf.
